@@ -415,6 +415,12 @@ class Evaluator:
             base = self.ev(t.value)
             if isinstance(base, Model):
                 setattr(base, t.attr, v)
+            elif callable(base) and type(base).__name__ == "function":
+                # function objects accept attributes (method.__name__ = ..., f.cache = {}): kept on the interpreter's closure object
+                try:
+                    setattr(base, t.attr, v)
+                except (AttributeError, TypeError) as e:
+                    raise Unsupported("attribute store %s: %s" % (ast.unparse(t), e))
             else:
                 raise Unsupported("attribute store %s" % ast.unparse(t))
         else:
